@@ -369,10 +369,10 @@ pub fn run(s: &Session) {
     }
     s.foreach("to-absolute-enumerated", rel, false, check_to_absolute);
 
-    s.forall("to-relative-random", s.pick(1_000_000, 20_000_000), slot_strategy, check_to_relative);
-    s.forall("to-absolute-random", s.pick(300_000, 6_000_000), rel_strategy, check_to_absolute);
-    s.forall("wallclock-step-random", s.pick(500_000, 10_000_000), slot_strategy, check_step);
-    s.forall("wallclock-pair-random", s.pick(300_000, 6_000_000), pair_strategy, check_pair);
+    s.forall("to-relative-random", s.pick(4_000_000, 16_000_000), slot_strategy, check_to_relative);
+    s.forall("to-absolute-random", s.pick(1_000_000, 4_000_000), rel_strategy, check_to_absolute);
+    s.forall("wallclock-step-random", s.pick(2_000_000, 8_000_000), slot_strategy, check_step);
+    s.forall("wallclock-pair-random", s.pick(1_000_000, 4_000_000), pair_strategy, check_pair);
 
     for net in ["mainnet", "testnet", "preprod"] {
         s.health(s.class_count(&format!("to-relative:{net}:byron")) > 1000, &format!("few Byron-era slots for {net}"));
